@@ -5,6 +5,20 @@
 using namespace nano;
 using namespace nano::parallel;
 
+#ifdef NANO_VERIF
+std::atomic<nano::verif::hook_t>& nano::verif::pool_hook()
+{
+    static std::atomic<hook_t> hook{nullptr};
+    return hook;
+}
+
+std::atomic<size_t>& nano::verif::pool_max_size()
+{
+    static std::atomic<size_t> size{0U};
+    return size;
+}
+#endif
+
 queue_t::queue_t() = default;
 
 worker_t::worker_t(queue_t& queue, size_t tnum)
@@ -20,13 +34,16 @@ void worker_t::operator()() const
         task_t task;
 
         // wait for a new task to be available in the queue
+        NANO_VERIF_POINT(worker_before_wait, &m_queue);
         {
             std::unique_lock lock(m_queue.m_mutex);
 
             m_queue.m_condition.wait(lock, [&] { return m_queue.m_stop || !m_queue.m_tasks.empty(); });
+            NANO_VERIF_POINT(worker_woke, &m_queue);
 
             if (m_queue.m_stop)
             {
+                NANO_VERIF_POINT(worker_saw_stop, &m_queue);
                 m_queue.m_tasks.clear();
                 m_queue.m_condition.notify_all();
                 break;
@@ -34,11 +51,15 @@ void worker_t::operator()() const
 
             task = std::move(m_queue.m_tasks.front());
             m_queue.m_tasks.pop_front();
+            NANO_VERIF_POINT(worker_popped, &m_queue);
         }
 
         // execute the task
+        NANO_VERIF_POINT(worker_before_run, &m_queue);
         task(m_tnum);
+        NANO_VERIF_POINT(worker_after_run, &m_queue);
     }
+    NANO_VERIF_POINT(worker_exit, &m_queue);
 }
 
 void section_t::block(const bool raise)
@@ -47,7 +68,9 @@ void section_t::block(const bool raise)
     {
         if (future.valid())
         {
+            NANO_VERIF_POINT(block_before_get, this);
             raise ? future.get() : future.wait();
+            NANO_VERIF_POINT(block_after_get, this);
         }
     }
 }
@@ -78,19 +101,30 @@ pool_t::pool_t(const size_t threads)
 
 size_t pool_t::max_size()
 {
+#ifdef NANO_VERIF
+    if (const auto size = nano::verif::pool_max_size().load(std::memory_order_relaxed); size > 0U)
+    {
+        return size;
+    }
+#endif
     return std::max(size_t(1), static_cast<size_t>(std::thread::hardware_concurrency()));
 }
 
 pool_t::~pool_t()
 {
+    NANO_VERIF_POINT(dtor_before_lock, &m_queue);
     {
         const std::scoped_lock lock(m_queue.m_mutex);
         m_queue.m_stop = true;
+        NANO_VERIF_POINT(dtor_stop_set, &m_queue);
     }
+    NANO_VERIF_POINT(dtor_before_notify, &m_queue);
     m_queue.m_condition.notify_all();
 
     for (auto& thread : m_threads)
     {
+        NANO_VERIF_POINT(dtor_before_join, &m_queue);
         thread.join();
     }
+    NANO_VERIF_POINT(dtor_after_joins, &m_queue);
 }
